@@ -367,7 +367,7 @@ def gen_reply_op(rng, sh, max_id):
 def success_reply(rng, sh, kind, rid):
     if kind == "publish": return ["published", rid, rng.randrange(100, 110)]
     if kind == "subscribe":
-        sid = rng.choice([77, 77, 78, 79])
+        sid = rng.choice([77, 77, 77, 77, 78, 79])      # mostly one id: several handlers on one subscription
         sh.subids.append(sid)
         return ["subscribed", rid, sid]
     if kind == "unsubscribe": return ["unsubscribed", rid]
@@ -723,15 +723,7 @@ def run(ck):
             ck.bump("oracle:" + key)
             if key not in found or len(it[2]) < len(found[key][1][2]):
                 found[key] = (text, it)
-    for key, (text, it) in sorted(found.items()):
-        fw, cfg, ops, res = it
-
-        def still(cands, results, fw=fw, cfg=cfg, key=key):
-            return [any(k == key for k, _ in oracle_c04(fw, cfg, c, r)) for c, r in zip(cands, results)]
-        small = shrink(ck, fw, cfg, ops, still, keep_prefix=len(join_prefix(fw)))
-        r2 = run_histories(ck, fw, [{"cfg": cfg, "ops": small}])[0]
-        ck.violation(f"{fw}/{key}", f"[{fw}] {text}", {"fw": fw, "cfg": cfg, "ops": small, "trace": r2["trace"]},
-                     found_input=True)
+    report_findings(ck, found, oracle_c04, lambda fw: len(join_prefix(fw)))
     # ---- model comparison ----
     bad = model_compare(ck, "c04", items)
     ck.bump("model_compared", len(items))
@@ -755,8 +747,33 @@ def run(ck):
                      "(correspondence broken); the property oracle accepts the implementation's log",
                      {"fw": fw, "cfg": cfg, "ops": small, "trace": r2["trace"],
                       "model": model_answer(ck, fw, cfg, small, r2)}, found_input=False)
-    if broken and not found:
-        ck.log("proof obligations broken, no failing input found by the sweep")
+    if broken:
+        # the sweep above is the search for a concrete failing input; whatever it found is reported with its replay,
+        # the broken obligations themselves are reported here (no failing input attached)
+        ck.violation("obligation/" + broken[0], f"proof obligation(s) no longer check: {broken[:12]}",
+                     {"broken_obligations": broken, "note": "see coverage.broken_obligations in the evidence file for the "
+                      "coqc error; the history sweep of this run is the search for a failing input"}, found_input=False)
+
+
+def report_findings(ck, found, oracle, keep_prefix_of):
+    """found: key -> (text, (fw, cfg, ops, res)).  Shrinks the long ones (in parallel driver processes) and reports."""
+    import concurrent.futures as cf
+
+    def work(item):
+        key, (text, it) = item
+        fw, cfg, ops, res = it
+        small = ops
+        if len(ops) > 9:
+            def still(cands, results):
+                return [any(k == key for k, _ in oracle(fw, cfg, c, r)) for c, r in zip(cands, results)]
+            small = shrink(ck, fw, cfg, ops, still, keep_prefix=keep_prefix_of(fw), rounds=5)
+        r2 = run_histories(ck, fw, [{"cfg": cfg, "ops": small}])[0] if small is not ops else res
+        return key, text, fw, cfg, small, r2
+    with cf.ThreadPoolExecutor(max_workers=8) as ex:
+        done = list(ex.map(work, sorted(found.items())))
+    for key, text, fw, cfg, small, r2 in done:
+        ck.violation(f"{fw}/{key}", f"[{fw}] {text}", {"fw": fw, "cfg": cfg, "ops": small, "trace": r2["trace"]},
+                     found_input=True)
 
 
 def load_corpus(pid):
